@@ -11,11 +11,14 @@ Guards(e) ==
      <<"G_C19_DetectorSane", e.out.ok => (e.out.privateKeysKnown >= 3 /\ e.out.publicHalvesSeenOnWire >= 3)>>,
      <<"G_C19_PrivateFilesRestricted", \A i \in DOMAIN e.out.files :
             e.out.files[i].private => e.out.files[i].mode = (IF e.out.files[i].dir THEN 448 ELSE 384)>>,
-     <<"G_C19_OneCertPerLabel", e.out.duplicateLabels = 0>>,
+     \* (an agent that refuses every removal keeps the duplicates it was seeded with: judged by NewReplacesOld alone)
+     <<"G_C19_OneCertPerLabel", e.case.agentmode # "noremove" => e.out.duplicateLabels = 0>>,
+     \* after either installation: no certificate the client put into the agent sits beside another entry of its label
+     <<"G_C19_NewReplacesOld", e.out.addedBeside = 0>>,
      \* an agent that takes certificates (possibly only without a lifetime) ends up holding them
-     <<"G_C19_AgentGetsCerts", (e.case.agent /\ e.case.agentmode \in {"ok", "nolifetime"} /\ e.out.ok) => e.out.ownLabels >= 2>>,
-     \* an agent that takes nothing: the keys go to files (which the restricted-mode guard then judges)
-     <<"G_C19_FallbackToFiles", (e.out.ok /\ (~e.case.agent \/ e.case.agentmode = "refuse")) => e.out.privateFiles >= 2>>,
+     <<"G_C19_AgentGetsCerts", (e.case.agent /\ e.case.agentmode \in {"ok", "nolifetime", "noremove_once"} /\ e.out.ok) => e.out.ownLabels >= 2>>,
+     \* an agent that takes nothing, or cannot make room under the (seeded) labels: the keys go to files (which the restricted-mode guard then judges)
+     <<"G_C19_FallbackToFiles", (e.out.ok /\ (~e.case.agent \/ e.case.agentmode \in {"refuse", "noremove"})) => e.out.privateFiles >= 2>>,
      \* replacing is by label: what another tool put into the agent stays
      <<"G_C19_OtherLabelsKept", e.out.otherToolKept>>}
 TInit == l = 1 /\ viol = {}
